@@ -1620,9 +1620,63 @@ func isComplexAggregationExpression(expr string) bool {
 
 	result := (aggCount > 1) ||
 		(aggCount > 0 && containsOperatorsOutsideFunctions(expr) && !isSingleAggWithNestedFunc) ||
+		(aggCount > 0 && containsNullTestOutsideCalls(expr)) ||
 		(aggCount > 0 && nonAggCount > 0 && !isSingleAggWithNestedFunc)
 
 	return result
+}
+
+// containsNullTestOutsideCalls reports whether expr applies IS [NOT] NULL to
+// something that is not an argument of a call, e.g. "max(v) IS NULL" or
+// "(sum(x) IS NOT NULL)". The test has no operator character, so such an item
+// looked like the bare aggregate call and reported the aggregate's value instead
+// of the boolean. A test inside the call, sum(CASE WHEN x IS NULL ...), belongs
+// to the aggregate's argument.
+func containsNullTestOutsideCalls(expr string) bool {
+	isWordChar := func(c byte) bool {
+		return c == '_' || c == '.' || c >= 0x80 || (c >= '0' && c <= '9') || (c >= 'a' && c <= 'z') || (c >= 'A' && c <= 'Z')
+	}
+	for i := 0; i < len(expr); {
+		c := expr[i]
+		if c == '\'' || c == '"' || c == '`' {
+			// Skip the quoted text
+			i++
+			for i < len(expr) && expr[i] != c {
+				i++
+			}
+			i++
+			continue
+		}
+		if !isWordChar(c) {
+			i++
+			continue
+		}
+		j := i
+		for j < len(expr) && isWordChar(expr[j]) {
+			j++
+		}
+		word := expr[i:j]
+		k := j
+		for k < len(expr) && (expr[k] == ' ' || expr[k] == '\t') {
+			k++
+		}
+		if k < len(expr) && expr[k] == '(' {
+			// A call: its arguments are not looked at
+			if end := findMatchingParenInternal(expr, k); end != -1 {
+				i = end + 1
+				continue
+			}
+		}
+		if strings.EqualFold(word, "IS") {
+			rest := strings.ToUpper(strings.TrimLeft(expr[j:], " \t"))
+			rest = strings.TrimLeft(strings.TrimPrefix(rest, "NOT"), " \t")
+			if strings.HasPrefix(rest, "NULL") && (len(rest) == 4 || !isWordChar(rest[4])) {
+				return true
+			}
+		}
+		i = j
+	}
+	return false
 }
 
 // containsOperatorsOutsideFunctions checks if expression contains operators outside function calls
